@@ -5,7 +5,7 @@
    l = len_scale / rescale throughout.  Statements only; proofs in coq/c04/. *)
 From Coq Require Import Reals ZArith List.
 From Coquelicot Require Import Coquelicot.
-From GS Require Import Num Loops RInst C04_Model C04_Proofs C04_Analysis.
+From GS Require Import Num Loops Formulas RInst Formulas_gen C04_Model C04_Proofs C04_Analysis C04_Tie.
 Import ListNotations.
 Open Scope R_scope.
 
@@ -138,3 +138,107 @@ Theorem C04_fourier_pair_exponential_1d : forall ora (ls rs : R), 0 < ls -> 0 < 
               (spectral_density (Rops ora) Exponential 1 ls rs k).
 Proof. exact fourier_pair_exponential_1d. Qed.
 Print Assumptions C04_fourier_pair_exponential_1d.
+
+(* ====================================================================== tie to the translated source *)
+(* coq/gen/Formulas_gen.v is re-translated from /repo's current sources on every run (tools/py2coq.py).  The hand model
+   equals the translated formula for every oracle, dimension d : Z (the int attribute dim arrives as IZR d), length
+   l = len_rescaled and argument, WITHOUT side condition (x ** 2 = x * x over R; no NaN in R).  A changed
+   coefficient / exponent / branch condition in the source breaks these proofs. *)
+Theorem C04_tie_rad_fac : forall ora (d : Z) r,
+  Formulas_gen.rad_fac (Rops ora) (IZR d) r = C04_Model.rad_fac (Rops ora) d r.
+Proof. exact rad_fac_tie. Qed.
+Print Assumptions C04_tie_rad_fac.
+Theorem C04_tie_Gaussian_spectral_density : forall ora (d : Z) l k,
+  Formulas_gen.Gaussian_spectral_density (Rops ora) l (IZR d) k = gau_density (Rops ora) d l k.
+Proof. exact Gaussian_spectral_density_tie. Qed.
+Print Assumptions C04_tie_Gaussian_spectral_density.
+Theorem C04_tie_Gaussian_spectral_rad_cdf : forall ora (d : Z) l r,
+  Formulas_gen.Gaussian_spectral_rad_cdf (Rops ora) (IZR d) l r = gau_cdf (Rops ora) d l r.
+Proof. exact Gaussian_spectral_rad_cdf_tie. Qed.
+Print Assumptions C04_tie_Gaussian_spectral_rad_cdf.
+Theorem C04_tie_Gaussian_spectral_rad_ppf : forall ora (d : Z) l u,
+  Formulas_gen.Gaussian_spectral_rad_ppf (Rops ora) (IZR d) l u = gau_ppf (Rops ora) d l u.
+Proof. exact Gaussian_spectral_rad_ppf_tie. Qed.
+Print Assumptions C04_tie_Gaussian_spectral_rad_ppf.
+Theorem C04_tie_Exponential_spectral_density : forall ora (d : Z) l k,
+  Formulas_gen.Exponential_spectral_density (Rops ora) l (IZR d) k = exp_density (Rops ora) d l k.
+Proof. exact Exponential_spectral_density_tie. Qed.
+Print Assumptions C04_tie_Exponential_spectral_density.
+Theorem C04_tie_Exponential_spectral_rad_cdf : forall ora (d : Z) l r,
+  Formulas_gen.Exponential_spectral_rad_cdf (Rops ora) (IZR d) l r = exp_cdf (Rops ora) d l r.
+Proof. exact Exponential_spectral_rad_cdf_tie. Qed.
+Print Assumptions C04_tie_Exponential_spectral_rad_cdf.
+Theorem C04_tie_Exponential_spectral_rad_ppf : forall ora (d : Z) l u,
+  Formulas_gen.Exponential_spectral_rad_ppf (Rops ora) (IZR d) l u = exp_ppf (Rops ora) d l u.
+Proof. exact Exponential_spectral_rad_ppf_tie. Qed.
+Print Assumptions C04_tie_Exponential_spectral_rad_ppf.
+Theorem C04_tie_Matern_spectral_density : forall ora (d : Z) l nu k,
+  Formulas_gen.Matern_spectral_density (Rops ora) l nu (IZR d) k = mat_density (Rops ora) d l nu k.
+Proof. exact Matern_spectral_density_tie. Qed.
+Print Assumptions C04_tie_Matern_spectral_density.
+Theorem C04_tie_Integral_spectral_density : forall ora (d : Z) l nu k,
+  Formulas_gen.Integral_spectral_density (Rops ora) l (IZR d) nu k = int_density (Rops ora) d l nu k.
+Proof. exact Integral_spectral_density_tie. Qed.
+Print Assumptions C04_tie_Integral_spectral_density.
+Theorem C04_tie_JBessel_spectral_density : forall ora (d : Z) l nu k,
+  Formulas_gen.JBessel_spectral_density (Rops ora) l (IZR d) nu k = jb_density (Rops ora) d l nu k.
+Proof. exact JBessel_spectral_density_tie. Qed.
+Print Assumptions C04_tie_JBessel_spectral_density.
+
+(* class level: [gen_density / gen_cdf / gen_ppf ora m d ls rs] = the translated formula of class m applied to
+   len_rescaled = ls / rs and IZR d ([gen_density] falls back to the hand model for the three untranslated classes,
+   [translated m] = False for them); [gen_pdf] = translated rad_fac * gen_density *)
+Theorem C04_tie_classes : forall ora (m : cls) (d : Z) (ls rs x : R),
+  gen_density ora m d ls rs x = spectral_density (Rops ora) m d ls rs x /\
+  gen_cdf ora m d ls rs x = spectral_rad_cdf (Rops ora) m d ls rs x /\
+  gen_ppf ora m d ls rs x = spectral_rad_ppf (Rops ora) m d ls rs x.
+Proof. intros. split; [apply gen_density_tie|split; [apply gen_cdf_tie|apply gen_ppf_tie]]. Qed.
+Print Assumptions C04_tie_classes.
+
+(* ---------- the theorems above, about what the source says now *)
+Theorem C04_spectrum_scaling_generated : forall ora (m : cls) (d : Z) (ls rs k : R),
+  translated m -> 0 < ls -> 0 < rs -> scal_ok m (ls / rs) k ->
+  gen_density ora m d ls rs k = Rpow (ls / rs) (IZR d) * gen_density ora m d 1 1 ((ls / rs) * k).
+Proof. exact spectrum_scaling_gen. Qed.
+Print Assumptions C04_spectrum_scaling_generated.
+
+Theorem C04_cdf_derivative_generated : forall ora (ls rs : R) (m : cls) (d : Z), 0 < ls -> 0 < rs ->
+  gamma_hyps ora -> elementary m d \/ (via_erf m d /\ erf_derive_hyp ora) ->
+  forall r, is_derive (fun r => getv (gen_cdf ora m d ls rs r)) r (gen_pdf ora m d ls rs r).
+Proof. exact cdf_derivative_gen. Qed.
+Print Assumptions C04_cdf_derivative_generated.
+
+Theorem C04_cdf_limits_generated : forall ora (ls rs : R) (m : cls) (d : Z), 0 < ls -> 0 < rs ->
+  elementary m d \/ (via_erf m d /\ erf_limit_hyps ora) ->
+  getv (gen_cdf ora m d ls rs 0) = 0 /\ is_lim (fun r => getv (gen_cdf ora m d ls rs r)) p_infty 1.
+Proof. exact cdf_limits_gen. Qed.
+Print Assumptions C04_cdf_limits_generated.
+
+Theorem C04_pdf_integrates_to_one_generated : forall ora (ls rs : R) (m : cls) (d : Z), 0 < ls -> 0 < rs ->
+  gamma_hyps ora -> elementary m d \/ (via_erf m d /\ erf_derive_hyp ora /\ erf_limit_hyps ora) ->
+  is_RInt_gen (gen_pdf ora m d ls rs) (at_point 0) (Rbar_locally p_infty) 1.
+Proof. exact pdf_integrates_to_one_gen. Qed.
+Print Assumptions C04_pdf_integrates_to_one_generated.
+
+Theorem C04_ppf_inverts_cdf_generated : forall ora (ls rs : R), 0 < ls -> 0 < rs ->
+  (forall u, 0 <= u < 1 -> exists p, gen_ppf ora Gaussian 2 ls rs u = Some p /\ 0 <= p /\ gen_cdf ora Gaussian 2 ls rs p = Some u) /\
+  (forall r, 0 <= r -> exists u, gen_cdf ora Gaussian 2 ls rs r = Some u /\ 0 <= u < 1 /\ gen_ppf ora Gaussian 2 ls rs u = Some r) /\
+  ((forall x, ora ORA_ERFINV [ora ORA_ERF [x]] = x) ->
+   forall r, exists u, gen_cdf ora Gaussian 1 ls rs r = Some u /\ gen_ppf ora Gaussian 1 ls rs u = Some r) /\
+  (forall u, 0 <= u < 1 -> exists p, gen_ppf ora Exponential 1 ls rs u = Some p /\ gen_cdf ora Exponential 1 ls rs p = Some u) /\
+  (forall r, exists u, gen_cdf ora Exponential 1 ls rs r = Some u /\ gen_ppf ora Exponential 1 ls rs u = Some r) /\
+  (forall u, 0 <= u -> tol8 < 1 - u ->
+     exists p, gen_ppf ora Exponential 2 ls rs u = Some p /\ 0 <= p /\ gen_cdf ora Exponential 2 ls rs p = Some u) /\
+  (forall r, 0 <= r -> tol8 < 1 / sqrt (1 + (r * (ls / rs)) * (r * (ls / rs))) ->
+     exists u, gen_cdf ora Exponential 2 ls rs r = Some u /\ 0 <= u < 1 /\ gen_ppf ora Exponential 2 ls rs u = Some r).
+Proof. exact ppf_inverts_cdf_gen. Qed.
+Print Assumptions C04_ppf_inverts_cdf_generated.
+
+(* translated Exponential.cor and translated Exponential.spectral_density are a Fourier pair in one dimension *)
+Theorem C04_fourier_pair_exponential_1d_generated : forall ora (ls rs k : R), 0 < ls -> 0 < rs ->
+  ora ORA_GAMMA [1] = 1 ->
+  is_RInt_gen (fun r => / PI * (Formulas_gen.Exponential_cor (Rops ora) (r / (ls / rs)) * cos (k * r)))
+              (at_point 0) (Rbar_locally p_infty)
+              (Formulas_gen.Exponential_spectral_density (Rops ora) (ls / rs) (IZR 1) k).
+Proof. exact fourier_pair_exponential_1d_gen. Qed.
+Print Assumptions C04_fourier_pair_exponential_1d_generated.
